@@ -26,6 +26,12 @@ def main():
         for q in prefixes:
             rel.append({"p": p, "q": q, "u": UNITS[(len(rel)) % len(UNITS)], "m": MAGS[len(rel) % 5], "n": rng.choice([1, 2, -1, 3])})
     rr = impl("prefixsem_worker.py", {"cases": rel})["results"]
+    # the same relations in a process where every prefixed unit is first met inside a rendered compound unit (named units of derived
+    # dimensions included: their prefixed forms are new to the process)
+    DERIVED = [[[None, n_, 1]] for n_ in ("electronvolt", "joule", "newton", "watt", "pascal", "volt", "hertz", "liter", "acre", "calorie", "ohm", "gallon") if n_ in O.exp["unit_by_name"]]
+    rel2 = [{"p": p, "q": rng.choice(prefixes), "u": u, "m": rng.choice(MAGS[:5]), "n": rng.choice([1, 2, -1])} for u in DERIVED for p in (prefixes if c.tier == "thorough" else rng.sample(prefixes, 6))]
+    rr2 = impl("prefixsem_worker.py", {"cases": rel2, "render_first": True})["results"]
+    rel, rr = rel + [dict(x, render_first=True) for x in rel2], rr + rr2
     for case, rec in zip(rel, rr):
         c.count(case, nontrivial=True)
         if "err" in rec:
